@@ -60,6 +60,15 @@ def concrete_key(eng, keyref):
     return (idx.as_long(), mode.as_long(), ident.as_long())
 
 
+def new_cursor(st):
+    """cursor positions live in the environment (keyed by a cursor id) so that they survive forks
+    and chained engine runs"""
+    cs = st.env.setdefault("cursors", {})
+    cid = len(cs)
+    cs[cid] = None
+    return cid
+
+
 def kv_models(src_codec, dst_codec, same_metric):
     ms = []
 
@@ -113,7 +122,7 @@ def kv_models(src_codec, dst_codec, same_metric):
             lo, hi, inc = (0, 0, 0), top, True
         else:
             raise E.Unknown("range bounds of kind " + r.kind)
-        return one(mk_ok(Opaque("Cursor", {"index": None, "mode": None, "cur": None, "lo": lo, "hi": hi, "inc": inc})))
+        return one(mk_ok(Opaque("Cursor", {"index": None, "mode": None, "id": new_cursor(st), "lo": lo, "hi": hi, "inc": inc})))
 
     @reg(r"^RangeInclusive::<Key>::new$")
     def _(eng, st, callee, a, ty):
@@ -141,25 +150,26 @@ def kv_models(src_codec, dst_codec, same_metric):
         m = None
         if z3.is_true(z3.simplify(mode.disc == BV(1, 64))):
             m = z3.simplify(mode.f[0].disc).as_long()
-        cur = Opaque("Cursor", {"index": idx.as_long(), "mode": m, "cur": None})
+        cur = Opaque("Cursor", {"index": idx.as_long(), "mode": m, "id": new_cursor(st)})
         return one(mk_ok(cur))
 
     @reg(r"^<R[ow](Prefix|Range)<'_, .*> as Iterator>::next$")
     def _(eng, st, callee, a, ty):
         c = eng.deref(a[0])
-        if isinstance(c, Agg):          # ItemIter { inner }
-            c = c.f[0]
+        if isinstance(c, Agg):          # ItemIter { inner, .. }
+            c = [x for x in c.f.values() if isinstance(x, Opaque) and x.tag == "Cursor"][0]
         d = c.data
+        pos = st.env["cursors"][d["id"]]
         if "lo" in d:
             keys = sorted(k for k in st.env["kv"] if k >= d["lo"] and (k <= d["hi"] if d["inc"] else k < d["hi"])
-                          and (d["cur"] is None or k > d["cur"]))
+                          and (pos is None or k > pos))
         else:
             keys = sorted(k for k in st.env["kv"] if k[0] == d["index"] and (d["mode"] is None or k[1] == d["mode"])
-                          and (d["cur"] is None or k > d["cur"]))
+                          and (pos is None or k > pos))
         if not keys:
             return one(mk_option())
         k = keys[0]
-        d["cur"] = k
+        st.env["cursors"][d["id"]] = k
         val = st.env["kv"][k]
         pair = Agg("tuple", None, {0: key_agg(k), 1: val})
         return one(mk_option(mk_ok(pair)))
@@ -176,11 +186,11 @@ def kv_models(src_codec, dst_codec, same_metric):
 
     @reg(r"^Rw(Prefix|Range)::<.*>::del_current$")
     def _(eng, st, callee, a, ty):
-        c = eng.deref(a[0]).data
-        if c["cur"] is None or c["cur"] not in st.env["kv"]:
+        pos = st.env["cursors"][eng.deref(a[0]).data["id"]]
+        if pos is None or pos not in st.env["kv"]:
             return one(mk_ok(z3.BoolVal(False)))
-        del st.env["kv"][c["cur"]]
-        st.env["log"].append(("del_current", c["cur"]))
+        del st.env["kv"][pos]
+        st.env["log"].append(("del_current", pos))
         return one(mk_ok(z3.BoolVal(True)))
 
     @reg(r"^Rw(Prefix|Range)::<.*>::put_current_with_options::<|^Rw(Prefix|Range)::<.*>::put_current$")
@@ -188,7 +198,7 @@ def kv_models(src_codec, dst_codec, same_metric):
         c = eng.deref(a[0]).data
         kref, vref = (a[2], a[3]) if "with_options" in callee else (a[1], a[2])
         k = concrete_key(eng, kref)
-        if c["cur"] != k:
+        if st.env["cursors"][c["id"]] != k:
             return one(mk_err(Agg("heed::Error", BV(1, 64), {0: Opaque("mdb")})))
         st.env["kv"][k] = W.snap(eng, vref)
         st.env["log"].append(("put_current", k))
@@ -369,6 +379,126 @@ def run_change(ctx, src_codec, dst_codec, same_metric, deadline, with_items=True
     res["queries"], res["solver_s"] = eng.queries, round(eng.solver_s, 2)
     res["encoded"] = sorted(E.short(n) for n in eng.encoded)
     return res
+
+
+def run_iter(ctx, codec, side, deadline):
+    """C05: `Writer::iter` / `Reader::iter` + `ItemIter::next` from MIR over the key-value world:
+    exactly this index's items, ascending, each vector at the declared dimension."""
+    res = {"paths": 0, "violations": [], "unknown": [], "shapes": []}
+    eng = E.Engine(ctx.fns, ctx.structs, ctx.enums, kv_models(codec, codec, False) + list(M.REGISTRY),
+                   INLINE, max_depth=3, max_steps=3000)
+    label = f"{side}.iter() over {codec} leaves"
+    dim = z3.BitVec("dimensions", 64)
+    pc = [z3.UGE(dim, 1), z3.ULE(dim, 300)]
+    kv = database(dim, codec, True)
+    if side == "writer":
+        fn = find_fn(ctx.fns, r"writer::.*::iter$")
+        me = Agg("Writer", None, {0: Opaque("Database"), 1: BV(IDX, 16), 2: dim, 3: Agg("Option", BV(0, 64), {})})
+    else:
+        fn = find_fn(ctx.fns, r"reader::.*::iter$")
+        me = Agg("Reader", None, {0: Opaque("Database"), 1: BV(IDX, 16), 2: Opaque("ItemIds"), 3: dim, 4: BV(0, 16)})
+    nxt = find_fn(ctx.fns, r"item_iter::.*::next$")
+
+    def viol(clause, m):
+        res["violations"].append({"shape": label, "clause": clause, "pre": None,
+                                  "values": {"dimensions": m.eval(dim, model_completion=True).as_long(), "codec": codec,
+                                             "side": side}})
+
+    def bad(f, what):
+        if f.status in ("unknown", "unwind"):
+            res["unknown"].append(f"{label}: {f.status}: {f.info}")
+            return True
+        if f.status == "panic":
+            ok, m = eng.check(f.pc)
+            if ok:
+                viol(what + " panics: " + f.info, m)
+            return True
+        return False
+    finals = eng.run(fn, [Ref(Cell(me)), Ref(Cell(Opaque("RoTxn")))], env={"kv": kv, "log": []}, pc=pc, deadline=deadline)
+    for f in finals:
+        res["paths"] += 1
+        if bad(f, "iter"):
+            continue
+        if not z3.is_true(z3.simplify(f.value.disc == BV(0, 64))):
+            ok, m = eng.check(f.pc)
+            if ok:
+                viol("iter returns Err on a healthy database", m)
+            continue
+        it = f.value.f[0]
+        env, cur_pc = f.env, list(f.pc)
+        want = sorted(k[2] for k in kv if k[0] == IDX and k[1] == ITEM)
+        got = []
+        stop = False
+        for _ in range(len(want) + 2):
+            sub = eng.run(nxt, [Ref(Cell(it))], env=env, pc=cur_pc, deadline=deadline)
+            res["paths"] += len(sub)
+            if len(sub) != 1:
+                res["unknown"].append(f"{label}: next() forks into {len(sub)} paths")
+                stop = True
+                break
+            g = sub[0]
+            if bad(g, "next"):
+                stop = True
+                break
+            env, cur_pc = g.env, list(g.pc)
+            o = g.value
+            if z3.is_true(z3.simplify(o.disc == BV(0, 64))):
+                break
+            r = o.f[0]
+            if not z3.is_true(z3.simplify(r.disc == BV(0, 64))):
+                ok, m = eng.check(cur_pc)
+                if ok:
+                    viol("next yields Err on a healthy database", m)
+                stop = True
+                break
+            ident, vec = r.f[0].f[0], r.f[0].f[1]
+            got.append(z3.simplify(ident).as_long())
+            ok, m = eng.check(cur_pc, vec.f["len"] != dim)
+            if ok:
+                viol(f"the vector yielded for item {got[-1]} has "
+                     f"{m.eval(vec.f['len'], model_completion=True).as_long()} components, the declared dimension is "
+                     f"{m.eval(dim, model_completion=True).as_long()}", m)
+                stop = True
+                break
+        if not stop and got != want:
+            ok, m = eng.check(cur_pc)
+            if ok:
+                viol(f"iteration yields items {got}, stored are {want}", m)
+    res["shapes"].append({"shape": label, "paths": res["paths"], "ok_paths": res["paths"]})
+    res["queries"], res["solver_s"] = eng.queries, round(eng.solver_s, 2)
+    res["encoded"] = sorted(E.short(n) for n in eng.encoded)
+    return res
+
+
+def iter_obligation(o, tier, seed):
+    import e2
+    import native
+    from driver import Outcome
+    try:
+        ctx = e2.context(True)
+    except RuntimeError as e:
+        return [Outcome(o["id"], "mirsym", "inconclusive", str(e))]
+    total = None
+    for codec in ("f32", "bq"):
+        for side in ("writer", "reader"):
+            r = run_iter(ctx, codec, side, time.time() + 300)
+            if total is None:
+                total = r
+            else:
+                for k in ("paths", "queries"):
+                    total[k] += r[k]
+                total["solver_s"] = round(total["solver_s"] + r["solver_s"], 2)
+                for k in ("violations", "unknown", "shapes"):
+                    total[k] += r[k]
+                total["encoded"] = sorted(set(total["encoded"]) | set(r["encoded"]))
+    return e2_tree.outcomes_from(o, total, "iter", native, e2, Outcome)
+
+
+def iter_scenario(v):
+    vals = v["values"]
+    metric = "bq_euclidean" if vals.get("codec") == "bq" else "euclidean"
+    dim = max(1, int(vals.get("dimensions", 3)))
+    return f"iter_items metric={metric} dim={dim} side={vals.get('side', 'writer')} items=1,2,4294967295\n"
 
 
 def obligation(o, tier, seed):
